@@ -244,6 +244,13 @@ func (c *StoreCtl) GateEntered(i int) bool {
 }
 
 // Hook is installed as Trace.Before.
+// FiredCount is the number of scripted failures that were actually delivered.
+func (c *StoreCtl) FiredCount() int {
+	c.mu.Lock()
+	defer c.mu.Unlock()
+	return len(c.Fired)
+}
+
 func (c *StoreCtl) Hook(ci *CallInfo) error {
 	if us := c.script.LatencyUs[ci.Kind]; us > 0 {
 		time.Sleep(time.Duration(us) * time.Microsecond)
